@@ -299,11 +299,13 @@ def main() -> int:
                 inventory += [("enum_member", k) for k in e["values"]]
         for e in man.get("endpoints") or []:
             inventory += [("tag", e["tag"]), ("module", e["module"])] + [("parameter", p["python_name"]) for loc in e["params"].values() for p in loc]
+        prefix_lost_doc = False
         for what, nm in inventory:
             ev.count("names_walked")
             if not ident_ok(nm) and set(pre) <= {"_"} and what in ("class", "module") and (nm == "" or nm[0].isdigit()):
                 # a name that needs the prefix (delimiters only, leading digit) under a field_prefix of underscores only: pascal / snake
                 # casing strips the prefix again
+                prefix_lost_doc = True
                 vd.violation(f"prefix_lost:{what}:underscore_only_prefix", f"{what} name {nm!r} derived for {X!r} ({slot}) under field_prefix {pre!r}", w)
             elif not ident_ok(nm):
                 vd.violation(f"invalid_identifier:{what}:{slot if kind == 'name' else 'collision_fallback'}", f"{what} name {nm!r} derived for {X!r} ({slot}) is not a valid non-keyword identifier", w)
@@ -320,7 +322,7 @@ def main() -> int:
             if "unterminated string" in msg:
                 ev.count("string_literal_broken_by_control_character(C05)")
                 continue  # the derived identifier is fine; the wire-name *string literal* is broken: C05's newline class
-            if set(pre) <= {"_"} and (re.search(r"^class( \d\w*)?( ?\(.*\))?:|^from \.+(\d\w*)?\.? import|^from \.+(models\.)?_+ import( \d\w*)?( |$)|import( \d\w*)?$|^(\d\w*) = ", (text or "").strip()) or re.search(r"models/(_|\d\w*)\.py", rel)):
+            if set(pre) <= {"_"} and (prefix_lost_doc or re.search(r"^class( \d\w*)?( ?\(.*\))?:|^from \.+(\d\w*)?\.? import|^from \.+(models\.)?_+ import( \d\w*)?( |$)|import( \d\w*)?$|^(\d\w*) = ", (text or "").strip()) or re.search(r"models/(_|\d\w*)\.py", rel)):
                 vd.violation("syntax_error:prefix_lost:underscore_only_prefix", f"{rel}: {msg}: {text}", w)
                 continue
             vd.violation(f"syntax_error:{slot if kind == 'name' else 'collision:' + slot}", f"{rel}: {msg}: {text}", w)
